@@ -36,14 +36,24 @@
      and sized (call_okf; necessary: C02_no_error_needs_sized_arguments); C02_history_in_bounds_full:
      the position is inside the packet at every call boundary under the same premises.
    No C90 undefined operation at the bit-field level: C08 (result is Some).
+   * uint32_t arithmetic (S12; end of this file, Layout/Wrap32.v + Wrap32Proofs.v, Tracer/Wrap32.v): the
+     size pass as the C really computes it (size_op32: every addition and _ALIGN reduced modulo 2^32)
+     is the model's size pass modulo 2^32 (C02_size_pass_is_uint32_of_model), hence equal to it
+     whenever the record ends below bit 2^32 (C02_uint32_size_agrees_below_2_32, and then the uint32
+     reservation test is the model's: C02_no_wrap_transfer) - this is the premise under which the
+     theorems above speak about the real arithmetic.  Beyond it the FULL statement is false of the
+     faithful model: C02_refuted_uint32_wrap (a dynamic array of 2^29 uint8 elements in a 256-byte
+     packet: sized 40 bits, reservation accepted, the serializer stores past the packet).  The
+     witness is replayed on the real tracer by every C02 check (known finding S12).
    Validated, not proved (named): the compiled object's actual memory accesses (AddressSanitizer +
-   UBSan builds with exact-size heap buffers on every correspondence run), reads of caller data,
-   uint32_t wrap-around of ctx->at (S12). *)
+   UBSan builds with exact-size heap buffers on every correspondence run), reads of caller data. *)
 From Coq Require Import List Arith Bool ZArith String.
 Import ListNotations.
 From BT.Base Require Import Bits.
 From BT.Layout Require Import Model BuildProofs SizeProofs.
+From BT.Layout Require Import Wrap32 Wrap32Proofs.
 From BT.Tracer Require Import Model Lemmas BoundsProofs BoundsWitness.
+From BT.Tracer Require Import Wrap32.
 
 Theorem C02_buffer_length_invariant :
   forall d buf pcargs oracle h,
@@ -255,3 +265,59 @@ Proof.
   split; [exact ex_wf|]. split; [unfold fits; cbn; apply Z.ltb_lt; reflexivity|].
   split; [repeat constructor|]. split; [exact ex_bufs_ok|]. split; [exact ex_calls_f|exact no_error_example].
 Qed.
+
+(* ------------------------------------------------------------------ uint32_t arithmetic (S12) *)
+(* The generated C computes positions and sizes on uint32_t (Layout/Wrap32.v: size_op32, er_size32,
+   gt_diff32N); the model above uses unbounded nat.  For operations whose alignments divide 2^32
+   (parts_aligns_ok: powers of two) the uint32_t size pass is the model's modulo 2^32; below 2^32
+   the value of _er_size_*() and the test of _reserve_er_space are exactly the model's; beyond, the
+   statement "the size reserved is the size written" is refuted: a dynamic array of 2^29 uint8
+   traced into a 256-byte packet is sized 40 bits, the reservation succeeds, and the serializer
+   attempts a store beyond the packet (proofs: Layout/Wrap32Proofs.v, Tracer/Wrap32.v). *)
+Theorem C02_size_pass_is_uint32_of_model :
+  forall ps, parts_aligns_ok ps -> forall a,
+    size_parts32 ps (w32 (N.of_nat a)) = option_map (fun e => w32 (N.of_nat e)) (size_parts ps a).
+Proof. exact size_parts32_spec. Qed.
+Print Assumptions C02_size_pass_is_uint32_of_model.
+
+Theorem C02_uint32_size_agrees_below_2_32 :
+  forall ps a e, parts_aligns_ok ps ->
+    size_parts ps a = Some e -> a <= e -> (N.of_nat e < W32)%N ->
+    er_size32 ps (N.of_nat a) = Some (N.of_nat (e - a)).
+Proof. exact er_size32_agrees. Qed.
+Print Assumptions C02_uint32_size_agrees_below_2_32.
+
+Theorem C02_no_wrap_transfer :
+  forall ps a e p, parts_aligns_ok ps ->
+    size_parts ps a = Some e -> a <= e -> (N.of_nat e < W32)%N -> a <= p -> (N.of_nat p < W32)%N ->
+    er_size32 ps (N.of_nat a) = Some (N.of_nat (e - a)) /\
+    gt_diff32N (N.of_nat (e - a)) (N.of_nat p) (N.of_nat a) = gt_diff32 (e - a) p a.
+Proof. exact no_wrap_transfer. Qed.
+Print Assumptions C02_no_wrap_transfer.
+
+Theorem C02_refuted_uint32_wrap :
+  forall vs,
+  N.of_nat (List.length vs) = 536870912%N -> (forall v, In v vs -> exists z, v = VInt z) ->
+  let args := [VArr [VInt 536870912; VArr vs]] in
+  let ps := rec_parts d_w32 e_w32 0%Z args in
+  let w := w_w32 in
+  (In e_w32 (d_erts d_w32) /\ parts_aligns_ok ps /\ c_at (w_c w) = 96 /\ c_off_content (w_c w) = 96 /\
+   c_psize (w_c w) = 2048 /\ List.length (c_s (w_c w)) = 2048 /\ w_err w = false) /\
+  (exists e, size_parts ps 96 = Some e /\ 96 <= e /\ N.of_nat (e - 96) = (W32 + 40)%N /\
+             2048 < e - 96 /\ gt_diff32 (e - 96) 2048 96 = true) /\
+  (er_size32 ps 96 = Some 40%N /\ gt_diff32N 40 2048 96 = false /\ reserve d_w32 w 40 = (true, w)) /\
+  (forall ts s sv, ser_list LE true 2048 (rec_parts d_w32 e_w32 ts args) (mk_ss s 96 sv) = None) /\
+  (forall ts, w_err (ser_parts d_w32 w (rec_parts d_w32 e_w32 ts args)) = true).
+Proof. exact wrap32_refuted. Qed.
+Print Assumptions C02_refuted_uint32_wrap.
+
+(* the premises on `vs` are satisfiable: the same as a closed existential *)
+Theorem C02_refuted_uint32_wrap_closed :
+  exists args er,
+  let ps := rec_parts d_w32 e_w32 0%Z args in
+  parts_aligns_ok ps /\
+  er_size32 ps (N.of_nat (c_at (w_c w_w32))) = Some (N.of_nat er) /\
+  reserve d_w32 w_w32 er = (true, w_w32) /\ w_err w_w32 = false /\
+  forall ts, w_err (ser_parts d_w32 w_w32 (rec_parts d_w32 e_w32 ts args)) = true.
+Proof. exact wrap32_refuted_closed. Qed.
+Print Assumptions C02_refuted_uint32_wrap_closed.
